@@ -84,10 +84,11 @@ func init() {
 			{Name: "clisim-c13-schema", Fn: clisim.C13Schema, ProcessLevel: true, NeedsCLI: true, Runs: map[string]int{"quick": 600, "thorough": 8000}},
 			{Name: "clisim-c13-dryrun", Fn: clisim.C13Dry, ProcessLevel: true, NeedsCLI: true, Runs: map[string]int{"quick": 800, "thorough": 10000}},
 			{Name: "clisim-c13-commit", Fn: clisim.C13Commit, ProcessLevel: true, NeedsCLI: true, Runs: map[string]int{"quick": 400, "thorough": 6000}},
+			{Name: "clisim-c13-baseline", Fn: clisim.C13Baseline, ProcessLevel: true, NeedsCLI: true, Runs: map[string]int{"quick": 300, "thorough": 4000}},
 		},
-		Rule:           "apply part: generated directory (1-4 files x 1-4 statements, real DDL mixed in) with at most one statement that fails at execution time at a drawn (file, statement), global --tx-mode stratified over the run index x per-file atlas:txmode directives x optional count argument x optional earlier clean apply; then fix + re-hash + re-run; a third of the runs connect with _fk=1 and may fail by a foreign-key violation (at once outside a transaction, at commit inside one). commit part: the CLI is parked right before a COMMIT (file mode: the n-th file's; all mode: the final one) while an independent connection keeps a read transaction open, so that the COMMIT itself fails with 'database is locked'; then a clean re-run. schema part: initial schema applied by the CLI, rows with duplicates/NULLs/negatives inserted, desired schema = one drawn change per table of which at most one cannot succeed on the data (UNIQUE on duplicates, NOT NULL on NULLs, violated CHECK), --dry-run then default mode then --tx-mode none as reach probe. dry-run part: migrate apply --dry-run on fresh / initialised / dirty databases x count x tx-mode x --baseline / --allow-dirty. distinct = distinct trace hash among runs that executed at least one apply",
+		Rule:           "apply part: generated directory (1-4 files x 1-4 statements, real DDL mixed in) with at most one statement that fails at execution time at a drawn (file, statement), global --tx-mode stratified over the run index x per-file atlas:txmode directives x optional count argument x optional earlier clean apply; then fix + re-hash + re-run; a third of the runs connect with _fk=1 and may fail by a foreign-key violation (at once outside a transaction, at commit inside one). commit part: the CLI is parked right before a COMMIT (file mode: the n-th file's; all mode: the final one) while an independent connection keeps a read transaction open, so that the COMMIT itself fails with 'database is locked'; then a clean re-run. baseline part: a database that holds the files up to a drawn version without any history, `migrate apply --baseline <version>` in file or all mode with one failing statement in a later file, then the fix and the same command again. schema part: initial schema applied by the CLI, rows with duplicates/NULLs/negatives inserted, desired schema = one drawn change per table of which at most one cannot succeed on the data (UNIQUE on duplicates, NOT NULL on NULLs, violated CHECK), --dry-run then default mode then --tx-mode none as reach probe. dry-run part: migrate apply --dry-run on fresh / initialised / dirty databases x count x tx-mode x --baseline / --allow-dirty. distinct = distinct trace hash among runs that executed at least one apply",
 		RequiredProbes: []string{"second-failure-after-fix", "partial-prefix-recorded", "rolled-back-after-progress", "plan-failed-after-progress", "dry-run:fresh:baseline", "dry-run:dirty:baseline", "dry-run:initialised:plain", "dry-run:dirty:allow-dirty"},
-		RequiredFaults: []string{"statement-failure-or-directive-conflict", "dry-run", "plan-fails-on-data/unique-on-duplicates", "plan-fails-on-data/not-null-on-nulls", "plan-fails-on-data/check-violated-by-rows", "commit-fails-database-locked/file", "commit-fails-database-locked/all"},
+		RequiredFaults: []string{"statement-failure-or-directive-conflict", "dry-run", "plan-fails-on-data/unique-on-duplicates", "plan-fails-on-data/not-null-on-nulls", "plan-fails-on-data/check-violated-by-rows", "commit-fails-database-locked/file", "commit-fails-database-locked/all", "statement-failure-on-baselined-first-run/file", "statement-failure-on-baselined-first-run/all"},
 		Real:           []string{"the whole CLI binary (cmdapi tx multiplexer, dry-run wrappers, Executor, ent revision store, SQLite driver)", "SQLite engine and files"},
 		Stub:           []string{"none (independent mattn/go-sqlite3 observer)"},
 		Assumptions: []string{
